@@ -288,6 +288,9 @@ func TestMain(m *testing.M) {
 	if os.Getenv("VERIF_C14_WORKER") == "" {
 		os.Exit(m.Run())
 	}
+	if os.Getenv("VERIF_C14_WORKER") == "first-use" {
+		firstUseWorker()
+	}
 	h := dyncrc16.New()
 	for s := 0; s < 65536; s++ {
 		p := prefixes[s]
@@ -330,6 +333,98 @@ func TestMain(m *testing.M) {
 	os.Exit(0)
 }
 
+// firstUseWorker is the child of the "first-use" sub-check: the very first
+// calls into the package made by this process come from 8 goroutines at the
+// same moment (a spin barrier), each using one of the package's entry points
+// on data of its own length; every result is compared with the reference.
+// Whatever the package sets up on first use must be ready for all of them.
+func firstUseWorker() {
+	var mode int
+	fmt.Sscan(os.Getenv("VERIF_C14_MODE"), &mode)
+	const g = 8
+	lens := []int{4096, 64, 63, 65536, 1, 1024, 300, 70000}
+	datas := make([][]byte, g)
+	wants := make([]uint16, g)
+	for i := range datas {
+		datas[i] = bigCase{Seed: uint64(i + 1 + 10*mode), Len: lens[(i+mode)%len(lens)]}.data()
+		wants[i] = fitmodel.CRC(datas[i])
+	}
+	var ready, goFlag int32
+	got := make([]uint16, g)
+	var wg sync.WaitGroup
+	for i := 0; i < g; i++ {
+		wg.Add(1)
+		go func(i int) {
+			defer wg.Done()
+			atomic.AddInt32(&ready, 1)
+			for atomic.LoadInt32(&goFlag) == 0 {
+			}
+			switch (i + mode) % 3 {
+			case 0:
+				got[i] = dyncrc16.Checksum(datas[i])
+			case 1:
+				h := dyncrc16.New()
+				h.Write(datas[i])
+				got[i] = h.Sum16()
+			default:
+				h := dyncrc16.New()
+				h.Write(datas[i][:len(datas[i])/2])
+				h.Write(datas[i][len(datas[i])/2:])
+				b := h.Sum(nil)
+				got[i] = uint16(b[0])<<8 | uint16(b[1])
+			}
+		}(i)
+	}
+	for atomic.LoadInt32(&ready) < g {
+		runtime.Gosched()
+	}
+	atomic.StoreInt32(&goFlag, 1)
+	wg.Wait()
+	for i := range got {
+		if got[i] != wants[i] {
+			fmt.Printf("MISMATCH goroutine %d of %d whose calls are the first this process makes into the package (%d bytes, entry point %d): sum %#04x, CRC-16/ARC = %#04x\n", i, g, len(datas[i]), (i+mode)%3, got[i], wants[i])
+			os.Exit(3)
+		}
+	}
+	fmt.Println("C14-OK")
+	os.Exit(0)
+}
+
+// firstUse runs firstUseWorker in fresh processes.
+func firstUse(rec *hx.Recorder) {
+	self, err := os.Executable()
+	if err != nil {
+		rec.Note("first-use: " + err.Error())
+		return
+	}
+	n := hx.Pick(40, 400)
+	for mode := 0; mode < n; mode++ {
+		cmd := exec.Command(self)
+		cmd.Env = append(os.Environ(), "VERIF_C14_WORKER=first-use", fmt.Sprintf("VERIF_C14_MODE=%d", mode), "VERIF_OUT=")
+		var out, errb bytes.Buffer
+		cmd.Stdout, cmd.Stderr = &out, &errb
+		err := cmd.Run()
+		rec.Eval("first-use", 8)
+		switch {
+		case err == nil && strings.Contains(out.String(), "C14-OK"):
+		case strings.Contains(out.String(), "MISMATCH "):
+			msg := out.String()[strings.Index(out.String(), "MISMATCH ")+9:]
+			if i := strings.IndexByte(msg, '\n'); i >= 0 {
+				msg = msg[:i]
+			}
+			rec.Fail("first-use", "", msg, writeCase{Data: "", Reset: -1})
+			return
+		case strings.Contains(errb.String(), "panic:") || strings.Contains(errb.String(), "fatal error:"):
+			rec.Fail("first-use", "", "8 goroutines making the process's first calls into the package crash it: "+strings.SplitN(errb.String(), "\n", 2)[0], writeCase{Data: "", Reset: -1})
+			return
+		default:
+			rec.Note(fmt.Sprintf("first-use: child ended with %v and no verdict", err))
+			return
+		}
+	}
+	rec.NonTrivialEnum(int64(n))
+}
+
 // buildVariants runs the children described at TestMain.
 func buildVariants(rec *hx.Recorder) {
 	for _, v := range []struct{ env, name string }{
@@ -365,6 +460,10 @@ func TestC14(t *testing.T) {
 	hx.Main(t, "C14", func(rec *hx.Recorder) {
 		if rp, ok := hx.LoadReplay(); ok {
 			switch rp.Sub {
+			case "first-use":
+				firstUse(rec)
+			case "build-variants":
+				buildVariants(rec)
 			case "large-writes":
 				var c bigCase
 				json.Unmarshal(rp.Case, &c)
@@ -389,6 +488,7 @@ func TestC14(t *testing.T) {
 		}
 
 		buildVariants(rec)
+		firstUse(rec)
 
 		// Exhaustive: all 65536 x 256 transitions through the public API.
 		var bad atomic.Int64
